@@ -139,6 +139,8 @@ def table():
         "output_file": ({"color_format": "cff_colr_1"}, [("Renamed.otf", (["Renamed.otf"], "CFF")), ("Another Name.ttf", (["Another Name.ttf"], "glyf"))]),
         "keep_glyph_names": (colr, [(True, 2.0), (False, 3.0)]),
         "clipbox_quantization": (colr, [(64, lambda b: all(v % 64 == 0 for v in b)), (7, lambda b: all(v % 7 == 0 for v in b))]),
+        # not given: the documented default is 2% of upem, rounded (41 at upem 2048, 22 at 1080)
+        "clipbox_default_step": (colr, [(2048, lambda b: all(v % 41 == 0 for v in b)), (1080, lambda b: all(v % 22 == 0 for v in b))]),
         "bitmap_resolution": ({"color_format": "cbdt"}, [(32, lambda o: o[1] == 32), (48, lambda o: o[1] == 48)]),
         "fea_file": ({}, None),  # handled specially below
         "transform": (colr, [("translate(100, 0)", lambda b: b[0] == 200), ("translate(0, 50)", lambda b: b[1] == 50 and b[3] == 750)]),
@@ -154,8 +156,13 @@ def table():
 BASE = dict(upem=1000, ascender=800, descender=-200, width=1000, family="Base Fam")
 
 
+ALIAS = {"clipbox_default_step": ("upem", "clipbox_quantization")}  # pseudo-field -> (option set, observable read)
+
+
 def run_job(job):
     field, mode, base, v_file, v_flag, expect = job[:6]
+    shown = field
+    field, observe = ALIAS.get(field, (field, field))
     earlier = job[6] if len(job) > 6 else None  # a value the same build directory was built with just before
     with scratch_dir("verif-c20-") as d:
         sd = d / "src"
@@ -188,14 +195,14 @@ def run_job(job):
                 return dict(field=field, mode=mode, earlier_value=earlier, exit=rc0, log=out0[-1000:]), None
         (d / "cfg.toml").write_text("".join(f"{k} = {toml_value(v)}\n" for k, v in filecfg.items()) + tail)
         rc, out = build.run_cli(["--build_dir", d / "build"] + args + [d / "cfg.toml"], cwd=d)
-        res = dict(field=field, mode=mode, file_value=v_file if mode in ("file", "both") else None, flag_value=v_flag if mode in ("flag", "both") else None, exit=rc)
+        res = dict(field=shown, mode=mode, file_value=v_file if mode in ("file", "both") else None, flag_value=v_flag if mode in ("flag", "both") else None, exit=rc)
         if earlier is not None:
             res["earlier_value_in_the_same_build_dir"] = earlier
         if rc != 0:
             res["log"] = out[-1000:]
             return res, None
         try:
-            res["observed"] = obs(field, d, d / "build", filecfg)
+            res["observed"] = obs(observe, d, d / "build", filecfg)
         except Exception as ex:
             res["observed"] = f"observer failed: {type(ex).__name__}: {ex}"
         return res, expect
